@@ -849,3 +849,4 @@ UNITS = [ServerCreate, ServerCreateBadArgs, ServerCreateTyped, ServerCreateCalla
          ProxyDecref, ProxyDecrefInServer, ProxyReduce, ProxyReduceInServer, Rebuild, RebuildInServer, Managed, ManagedOutside, MemRelease, MemInit, MemDel, C13Lemma]
 SCENARIOS = [('', 'replay/scenarios/c13_refcount_histories.py', [1, 2, 3, 4, 5, 6])]
 BOUNDED = [{'function': 'whole histories across processes (create/pickle/unpickle/child/store/remove/managed/delete)', 'method': 'runtime scenario replay/scenarios/c13_refcount_histories.py against a reference-count model', 'bound': '6 seeds x 45 steps (thorough tier and fallback)', 'counted_as_proved': False}]
+THOROUGH_SCENARIOS = [('', 'replay/scenarios/c13_refcount_histories.py', list(range(7, 31)), 600)]
